@@ -78,8 +78,9 @@ func init() {
 					s.OK(key, pos, "reviewed invariant: "+inv)
 					continue
 				}
+				alt := lenRelativeText(site)
 				for i, e := range tab.Entries {
-					if (e.Function == fn || bareFuncName(e.Function) == bareFuncName(fn)) && e.Expr == site.Expr {
+					if (e.Function == fn || bareFuncName(e.Function) == bareFuncName(fn)) && (e.Expr == site.Expr || (alt != "" && e.Expr == alt)) {
 						used[i] = true
 						matched = true
 						s.OK(key, pos, "reviewed invariant: "+e.Invariant)
@@ -111,6 +112,47 @@ func init() {
 		},
 	})
 	_ = strings.Join
+}
+
+// lenRelativeText: the site written out with an index that the SSA form shows to be len(X) − k of the very slice X it
+// indexes (`last := len(xs) - 1; xs[last]` reads as `xs[len(xs) - 1]`): the text a reviewed entry for the same
+// expression carries when the index is not named.
+func lenRelativeText(site *indexSite) string {
+	i := strings.Index(site.Expr, "[")
+	if i <= 0 {
+		return ""
+	}
+	name := site.Expr[:i]
+	lenMinus := func(v ssa.Value) (int64, bool) {
+		if v == nil {
+			return 0, false
+		}
+		t := termOf(v)
+		if t.base == nil || t.k >= 0 {
+			return 0, false
+		}
+		a, isLen := lenArg(t.base)
+		if !isLen || !sameValue(a, site.X) {
+			return 0, false
+		}
+		return -t.k, true
+	}
+	switch site.Kind {
+	case "index":
+		if k, ok := lenMinus(site.Index); ok {
+			return fmt.Sprintf("%s[len(%s) - %d]", name, name, k)
+		}
+	case "slice":
+		if site.Low != nil {
+			if k, isK := constInt(site.Low); !isK || k != 0 {
+				return ""
+			}
+		}
+		if k, ok := lenMinus(site.High); ok {
+			return fmt.Sprintf("%s[:len(%s) - %d]", name, name, k)
+		}
+	}
+	return ""
 }
 
 // cursorInvariant: the site indexes / reslices a slice field of a cursor object by that object's own cursor field
